@@ -8,8 +8,8 @@ from sim.checks import common
 ID = 'C01'
 LEVEL = 'exploration'
 BUDGET = {'quick': 20, 'thorough': 240}
-STREAM_ORDER = ['ops', 'guards', 'mat', 'chart', 'cfg']
-RULE = (common.GEN + 'at most one external event is pending and code sends nothing, so the pending event is known; per step the fired '
+STREAM_ORDER = ['ops', 'guards', 'moves', 'mat', 'chart', 'cfg']
+RULE = (common.GEN + 'at most one external event is pending and code sends nothing, so the pending event is known (in a third of the runs code sends (delayed) events and the pending event comes from the queue model; in half of those the clock moves while guards are evaluated); per step the fired '
         'multiset, the consumed event and the event seen by every guard probe are compared with reference steps 2-5 computed '
         'from the real pre-step configuration; non-trivial = a step in which >= 2 enabled candidates competed; distinct = distinct '
         '(chart, configuration, event, enabled set)')
@@ -31,6 +31,17 @@ def run(ch, tier):
     sp = gen_spec(ch.s('chart'), cfg)
     sim = Sim(sp, statechart=materialise(sp, ch, res))
     cfp = fp(sp.fingerprint())
+    if cfg.sends and ch.s('cfg').flag(1, 2):
+        # the clock moves while the guards of a step are evaluated: the event the guards saw is the event the step consumes
+        mv = ch.s('moves')
+
+        def on_probe(kind):
+            if kind == 'guard':
+                d = mv.pick([0, 0, 1, 2, 5])
+                if d:
+                    sim.clock.advance(d)
+                    res.stats['fault_clock_moved_inside_step'] += 1
+        sim.P.on_probe = on_probe
     for r in standard_ops(sim, ch, tier, single_pending=not cfg.sends, advance=bool(cfg.sends)):
         res.stats['steps'] += 1
         if r.init:
